@@ -158,12 +158,14 @@ def check_comment_state(ctx, out, rule="C12.rescan"):
         # constructors it calls have loops of their own that are irrelevant here)
         own = b0.impl_self_adt
         b = ctx.inl(b0, skip=lambda cb: not (own and cb.impl_self_adt == own), tag="own-methods", sugar=True)
-        fld = None
+        # the iterator's own Option-typed state (the comment being scanned, or a record holding it)
+        flds = set()
         for bi, sp, pl in util.all_places(b):
-            for e in pl["p"]:
-                if isinstance(e, dict) and e.get("f") and re.search(r"^std::option::Option<std::rc::Rc<blockwatch::language_parsers::Comment>>$", str(e.get("ty", ""))):
-                    fld = str(e["f"])
-        if fld is None:
+            es = [e for e in pl["p"] if isinstance(e, dict) and e.get("f")]
+            if es and str(es[0].get("adt", "")) == str(own) and str(es[0].get("ty", "")).startswith("std::option::Option<") \
+                    and not re.search(r"Iterator|Peekable|IntoIter", str(es[0].get("ty", ""))):
+                flds.add(str(es[0]["f"]))
+        if not flds:
             continue
         bad = []
 
@@ -177,9 +179,10 @@ def check_comment_state(ctx, out, rule="C12.rescan"):
                 return
             r0 = env.get(0, CW.TOP)
             if r0[0] == "adt" and r0[2] == "Some":
-                cur = w.field(env.get(-2, CW.TOP), fld) if env.get(-2, CW.TOP)[0] == "adt" else CW.TOP
-                if cur[0] == "adt" and cur[2] == "None":
-                    bad.append(bb)
+                for fld in flds:
+                    cur = w.field(env.get(-2, CW.TOP), fld) if env.get(-2, CW.TOP)[0] == "adt" else CW.TOP
+                    if cur[0] == "adt" and cur[2] == "None":
+                        bad.append(bb)
         w.on_visit = on_visit
         try:
             w.explore(0, {1: ("ref", -2, (), True)})
